@@ -3,7 +3,7 @@
    [tiny] is the coefficient-dropping test of the SDK (|c| <= f64::EPSILON); the exactness
    theorems are stated for every test that only drops exact zeros ([tiny_exact]); the residual
    theorems hold for an arbitrary test, in particular the SDK's. *)
-Require Import Ommx.Num Ommx.Poly Ommx.Msg Ommx.Arith Ommx.ArithProofs.
+Require Import Ommx.Num Ommx.Poly Ommx.Msg Ommx.Arith Ommx.ArithProofs Ommx.PolyComplete Ommx.ResidualOps.
 
 (* sum, for every ordered pair of the seven operand kinds that the table defines *)
 Theorem C02_add_sound : forall tiny, tiny_exact tiny -> forall x y z,
@@ -83,10 +83,63 @@ Theorem C02_poly_add_residual : forall tiny (a b : polynomial) rho,
 Proof. exact poly_add_residual. Qed.
 Print Assumptions C02_poly_add_residual.
 
+(* "up to ... the documented dropping of coefficients below machine epsilon", for the composite
+   operators and an ARBITRARY dropping test (in particular the SDK's |c| <= eps): what the result
+   lacks w.r.t. the exact sum / difference / product is an explicit residual term list every
+   coefficient of which passed the test, of bounded length *)
+Theorem C02_add_residual : forall (tiny : num -> bool) (f g h : function),
+  fwf f -> fn_add tiny f g = Some h ->
+  let d := fn_add_resid tiny f g in
+  all_pass tiny d /\ (List.length d <= 2 * (nterms f + nterms g))%nat /\
+  forall rho, denote h rho + val rho d = denote f rho + denote g rho.
+Proof. exact fn_add_residual. Qed.
+Print Assumptions C02_add_residual.
+Theorem C02_sub_residual : forall (tiny : num -> bool) (f g h : function),
+  fwf f -> fn_sub tiny f g = Some h ->
+  let d := fn_sub_resid tiny f g in
+  all_pass tiny d /\ (List.length d <= 2 * (nterms f + nterms g))%nat /\
+  forall rho, denote h rho + val rho d = denote f rho - denote g rho.
+Proof. exact fn_sub_residual. Qed.
+Print Assumptions C02_sub_residual.
+(* for a product, a Polynomial x (Linear | Quadratic) first converts the smaller operand, and what
+   that conversion drops (e) is multiplied by the polynomial operand (k) *)
+Theorem C02_mul_residual : forall (tiny : num -> bool) (f g h : function),
+  fn_mul tiny f g = Some h ->
+  let d := fn_mul_resid tiny f g in
+  let e := fn_mul_conv_resid tiny f g in
+  let k := fn_mul_cofactor f g in
+  all_pass tiny d /\ all_pass tiny e /\
+  (List.length d <= nterms f * nterms g)%nat /\ (List.length e <= Nat.max (nterms f) (nterms g))%nat /\
+  (e = [] \/ k = fn_terms f \/ k = fn_terms g) /\
+  forall rho, denote h rho + val rho d + val rho k * val rho e = denote f rho * denote g rho.
+Proof. exact fn_mul_residual. Qed.
+Print Assumptions C02_mul_residual.
+(* with the SDK's own test: on the unit box the sum is off by at most 2(|f|+|g|) eps, and a
+   product without conversion by at most |f||g| eps M when every residual monomial is bounded by M *)
+Theorem C02_add_eps_bound : forall (f g h : function) rho,
+  fwf f -> fn_add tiny_eps f g = Some h -> unit_box rho ->
+  qabs (denote h rho - (denote f rho + denote g rho)) <= qn (2 * (nterms f + nterms g)) * eps.
+Proof. exact fn_add_eps_bound_unit. Qed.
+Print Assumptions C02_add_eps_bound.
+Theorem C02_mul_eps_bound : forall (f g h : function) rho M,
+  no_conversion f g = true -> fn_mul tiny_eps f g = Some h -> 0 <= M ->
+  mono_bounded rho M (fn_mul_resid tiny_eps f g) ->
+  qabs (denote h rho - denote f rho * denote g rho) <= qn (nterms f * nterms g) * eps * M.
+Proof. exact fn_mul_eps_bound_no_conversion. Qed.
+Print Assumptions C02_mul_eps_bound.
+
 (* the comparator of the correspondence check is sound *)
 Theorem C02_comparator_sound : forall a b, poly_eqb a b = true -> forall rho, val rho a = val rho b.
 Proof. exact poly_eqb_sound. Qed.
 Print Assumptions C02_comparator_sound.
+
+(* ... and complete: two term lists that denote the same polynomial function are accepted, so the
+   comparator never raises an alarm on a correct answer however it is represented (a polynomial over
+   the rationals that vanishes everywhere has only zero coefficients; no bound on degree, number of
+   variables or terms) *)
+Theorem C02_comparator_complete : forall a b, poly_eqb a b = true <-> forall rho, val rho a = val rho b.
+Proof. exact poly_eqb_iff. Qed.
+Print Assumptions C02_comparator_complete.
 
 (* non-vacuity: (x1 + 2 x2 + 1) * (x1 - 1/2) as Linear x Linear -> Quadratic, and the
    hypothesis [owf] is needed: a quadratic with a duplicated position loses a term in Add *)
